@@ -124,10 +124,11 @@ func mfNotes(t mfToggles, rule string) []string {
 
 // The field names of the one-field family. The specification calls them Fa and FA; the identifiers really used
 // differ in case by a letter whose two cases have different UTF-8 lengths (sharp s), so that comparing names
-// "under case folding" cannot be done on bytes.
+// "under case folding" cannot be done on bytes - and by a letter with TWO lower-case forms (final sigma), so that it
+// cannot be done by lower-casing both sides either.
 const (
-	mfDstField     = "Fa\u00df"
-	mfCaseVarField = "FA\u1e9e"
+	mfDstField     = "Fa\u00df\u03c2"
+	mfCaseVarField = "FA\u1e9e\u03a3"
 )
 
 // mfSymbolic maps the identifiers really used back to the specification's names.
